@@ -119,7 +119,16 @@ func init() {
 				items = append(items, intoto.Step{Type: "step", SupplyChainItem: sci})
 			}
 		}
-		return outcome(func() error { return intoto.VerifyArtifacts(items, links) })
+		first := outcome(func() error { return intoto.VerifyArtifacts(items, links) })
+		// "repeat": the same arguments again, on fresh objects: the verdict must not depend on
+		// the order in which Go hands out the entries of the artifact maps (C10)
+		for i := 0; i < numOf(a["repeat"]); i++ {
+			again := outcome(func() error { return intoto.VerifyArtifacts(items, linksFromArgs(a["links"])) })
+			if again["res"] != first["res"] {
+				return map[string]any{"res": "varies"}
+			}
+		}
+		return first
 	}, Project: projRes})
 	regOp(&Op{Name: "clean", Impl: func(a map[string]any) any {
 		ps := anyStrs(a["paths"])
@@ -338,6 +347,13 @@ func runC03(r *Runner, tier string, rng *Rng) {
 		add(c)
 	}
 	flush()
+	// (b') names that clean to the same name (finding F20): the verdict must not vary
+	for i := 0; i < nrand/20; i++ {
+		c := genCollideCase(rng)
+		r.St.Count("collide")
+		add(c)
+	}
+	flush()
 	// (c) rule grammar
 	for i := 0; i < nunpack; i++ {
 		rule := genRuleTokens(rng)
@@ -536,6 +552,66 @@ func genRulesCase(rng *Rng, unclean bool) Case {
 		feat = "unclean:" + feat
 	}
 	return Case{Op: "rules", Args: map[string]any{"items": items, "links": links}, Feat: feat}
+}
+
+// genCollideCase: artifact names that are NOT fixed points of path.Clean and clean to the same
+// name, with different hash objects, in the source or the destination map of a MATCH rule.  The
+// clean-up in verifyMatchRule moves every such entry to its clean name; which entry survives must
+// not depend on the map order (finding F20): the entry whose recorded name sorts last does.
+func genCollideCase(rng *Rng) Case {
+	base := rng.Pick([]string{"a", "d/a", "d/sub/b", "foo"})
+	variants := []string{"./" + base, base + "/.", "x/../" + base, base + "/", "./" + base + "/."}
+	if i := strings.Index(base, "/"); i >= 0 {
+		variants = append(variants, base[:i]+"//"+base[i+1:], base[:i]+"/./"+base[i+1:])
+	}
+	hs := []string{"aa11", "bb22"}
+	coll := map[string]any{}
+	n := 2 + rng.Intn(2)
+	for i := 0; i < n; i++ {
+		coll[rng.Pick(variants)] = map[string]any{"sha256": hs[i%2]}
+	}
+	if rng.Chance(30) {
+		coll[base] = map[string]any{"sha256": rng.Pick(hs)}
+	}
+	if rng.Chance(50) {
+		coll["other"] = map[string]any{"sha256": "aa11"}
+	}
+	dp := rng.Pick([]string{"", "", "d", "out"})
+	dstName := base
+	if dp != "" {
+		dstName = dp + "/" + base
+	}
+	plain := map[string]any{dstName: map[string]any{"sha256": rng.Pick(hs)}}
+	if _, ok := coll["other"]; ok && rng.Chance(70) {
+		on := "other"
+		if dp != "" {
+			on = dp + "/other"
+		}
+		plain[on] = map[string]any{"sha256": "aa11"}
+	}
+	pat := rng.Pick([]string{"*", base})
+	rule := []any{"MATCH", pat, "WITH", "PRODUCTS"}
+	if dp != "" {
+		rule = append(rule, "IN", dp)
+	}
+	rule = append(rule, "FROM", "s")
+	rules := []any{rule, []any{"DISALLOW", "*"}}
+	var links map[string]any
+	feat := "collide-src"
+	if rng.Chance(65) {
+		// the colliding names lie in the SOURCE map (materials of t)
+		links = map[string]any{"t": map[string]any{"materials": coll, "products": map[string]any{}},
+			"s": map[string]any{"materials": map[string]any{}, "products": plain}}
+	} else {
+		// ... or in the DESTINATION map (products of s); then no prefix: the source is plain
+		feat = "collide-dst"
+		src := map[string]any{base: map[string]any{"sha256": rng.Pick(hs)}}
+		links = map[string]any{"t": map[string]any{"materials": src, "products": map[string]any{}},
+			"s": map[string]any{"materials": map[string]any{}, "products": coll}}
+		rules = []any{[]any{"MATCH", pat, "WITH", "PRODUCTS", "FROM", "s"}, []any{"DISALLOW", "*"}}
+	}
+	items := []any{map[string]any{"name": "t", "kind": "step", "expected_materials": rules, "expected_products": []any{}}}
+	return Case{Op: "rules", Args: map[string]any{"items": items, "links": links, "repeat": 12}, Feat: feat}
 }
 
 func genRuleTokens(rng *Rng) []any {
